@@ -577,16 +577,6 @@ theorem runWith_regular_preserves (special) (mode : Mode) (c : Nat) (sig : Sig) 
   have h1 : Good (s.regularOut c sig body raw fromScript).db.dict := (hs.dbAt _).runRegular ..
   exact (hs.setDbS (s.conn c).db h1).frame (by rw [Sys.faultS_srv]; rfl)
 
-/-- the nested runner of EXEC (level 0) -/
-theorem runInner_preserves (mode : Mode) (c : Nat) : Inner.Preserves (runInner mode c) := by
-  intro sig raw
-  unfold runInner
-  apply runWith_preserves
-  intro args cis
-  apply special_preserves
-  intro sig raw
-  pres
-
 /-! ## Scripts (EVAL / EVALSHA / SCRIPT) -/
 
 theorem nextPick_preserves : Pres Sys.DataInv nextPick := by
@@ -644,6 +634,16 @@ theorem runScriptCmd_preserves (mode : Mode) (c : Nat) (sig : Sig) (raw : List B
     Pres Sys.DataInv (runScriptCmd mode c sig raw fromScript) := by
   have hbody := scriptBody_preserves _ special_stub_preserves mode c
   unfold runScriptCmd; pres
+
+/-- the nested runner of EXEC (level 0): the direct script runner for a queued script command, the plain runner
+(with no further nesting) for every other command -/
+theorem runInner_preserves (mode : Mode) (c : Nat) : Inner.Preserves (runInner mode c) := by
+  intro sig raw
+  refine runInner_cases (P := fun m => Pres Sys.DataInv m) mode c sig raw
+    (fun _ => runScriptCmd_preserves mode c sig raw false) (fun _ => ?_)
+  apply runWith_preserves
+  intro args cis
+  exact special_stub_preserves _ _ _ _ _
 
 /-- `_run_command` for a command issued by a client -/
 theorem runCommand_preserves (mode : Mode) (c : Nat) (sig : Sig) (raw : List Bytes) (fromScript : Bool) :
